@@ -95,6 +95,19 @@ def run(ctx):
         ctx.check(good, 'R16.4', 'wrap:seq', 'mac() receives self.seq_num and the field is incremented by exactly 1 afterwards, once', w.where(),
                   'gss_wrapex does not use and then increment the sequence number exactly once per message')
     ctx.floor('R16.2', 'Ok paths of gss_wrapex', n_ok, 1)
+    # the send counter belongs to the sealing direction: nothing but gss_wrapex (and the constructor) stores it
+    writers = set()
+    for k_, bd in P.bodies.items():
+        for bi in range(bd.n):
+            if bd.blocks[bi]['cleanup']:
+                continue
+            for stt in bd.blocks[bi]['stmts']:
+                if stt['s'] == 'assign' and stt['place']['p'] and stt['place']['p'][-1].get('k') == 'field' and stt['place']['p'][-1].get('name') == 'seq_num' \
+                        and 'NTLMv2SecurityInterface' in (stt['place']['p'][-1].get('owner') or ''):
+                    writers.add(k_)
+    ctx.check(writers <= {WRAP} and WRAP in writers, 'R16.4', 'seq:writers', 'the sequence number is stored only by gss_wrapex', '',
+              'the send sequence number is also stored by %s: receiving a message must not change the number the next sealed message is signed with'
+              % sorted(x.rsplit('::', 1)[-1] for x in writers - {WRAP}))
     nw = ctx.body(SI + '::new')
     init = None
     roles = None
